@@ -48,16 +48,100 @@ type Env struct {
 // NewEnv installs a fresh virtual clock and network.
 func NewEnv() *Env {
 	start := time.Date(2024, 1, 1, 0, 0, 0, 0, time.UTC)
-	vtime.Install(start, time.Millisecond)
+	vtime.Install(start, 0)
 	return &Env{Net: memnet.New(), Start: start, Log: &Log{}}
 }
 
-// Advance moves virtual time forward in steps of at most one second.
+// Advance moves virtual time forward by d as a discrete-event simulation: the clock jumps from one
+// pending timer to the next, and after every instant at which timers fired (and once before moving at
+// all) it waits until no goroutine that executes library code is runnable (Settle). Library code
+// therefore never observes time moving while it is in the middle of reacting to something, however
+// loaded the machine is.
 func (e *Env) Advance(d time.Duration) {
+	Settle()
 	for d > 0 {
-		s := min(d, time.Second)
-		vtime.Advance(s)
-		d -= s
+		moved, fired := vtime.AdvanceNext(d)
+		d -= moved
+		if fired {
+			Settle()
+		} else if moved == 0 {
+			break
+		}
+	}
+}
+
+// SettleDebug keeps the goroutine dump on which the last Settle decided "quiescent".
+var SettleDebug bool
+
+// LastSettleDump is that dump.
+var LastSettleDump string
+
+var busyStates = []string{"running", "runnable", "syscall", "preempted", "GC assist", "copystack"}
+
+// Settle waits until every goroutine whose stack contains library frames is blocked (channel, select,
+// condition variable, mutex ...), i.e. until the library has finished reacting to whatever happened.
+// memnet blocks on sync.Cond, never on the OS, so "blocked" is a state the runtime reports.
+func Settle() bool {
+	deadline := time.Now().Add(HangLimit)
+	buf := make([]byte, 1<<18)
+	for round := 0; ; round++ {
+		n := runtime.Stack(buf, true)
+		for n == len(buf) {
+			buf = make([]byte, 2*len(buf))
+			n = runtime.Stack(buf, true)
+		}
+		busy := false
+		for _, g := range bytes.Split(buf[:n], []byte("\n\n")) {
+			if bytes.Contains(g, []byte("stack unavailable")) {
+				// a goroutine running on another thread has no printable stack: it may be library code
+				busy = true
+				break
+			}
+			if !bytes.Contains(g, []byte("github.com/bluenviron/gortsplib/v5")) {
+				continue
+			}
+			if bytes.Contains(g, []byte("verif/internal/sysx.Settle")) {
+				continue // the caller itself
+			}
+			nl := bytes.IndexByte(g, '\n')
+			if nl < 0 {
+				continue
+			}
+			head := g[:nl]
+			lb, rb := bytes.IndexByte(head, '['), bytes.IndexByte(head, ']')
+			if lb < 0 || rb < lb {
+				continue
+			}
+			state := string(head[lb+1 : rb])
+			for _, b := range busyStates {
+				if strings.HasPrefix(state, b) {
+					busy = true
+				}
+			}
+			// waiting for a mutex is not quiescence: the goroutine is in the middle of something and
+			// continues as soon as the (briefly held) lock is released
+			if (strings.HasPrefix(state, "semacquire") || strings.HasPrefix(state, "sync.Mutex") || strings.HasPrefix(state, "sync.RWMutex")) &&
+				!bytes.Contains(g, []byte("WaitGroup).Wait")) {
+				busy = true
+			}
+			if busy {
+				break
+			}
+		}
+		if !busy {
+			if SettleDebug {
+				LastSettleDump = string(buf[:n])
+			}
+			return true
+		}
+		if time.Now().After(deadline) {
+			return false
+		}
+		if round < 20 {
+			runtime.Gosched()
+		} else {
+			time.Sleep(100 * time.Microsecond)
+		}
 	}
 }
 
